@@ -200,7 +200,7 @@ def batch(arg):
         for mech, what, w in viol:
             out["viol"].append({"mech": mech, "what": what, "text": text, "indent": w, "case": i, "kind": kind})
     out["used_productions"] = sorted(str(p) for p in used)
-    out["viol"] = out["viol"][:60]
+    out["viol"] = common.cap_by_mech(out["viol"])
     return out
 
 
